@@ -472,8 +472,8 @@ Definition slash_redelegations (v fraction : Z) : M unit :=
               let tok := dtrunc (dmul_int fraction (r_amount r)) in
               (* capped at what the destination position holds *)
               sh <- (if del_tokens d dvi1 a <=? tok then ret (d_shares d)
-                     else (if tok <? 0 then panic P_NEG_COIN else ret tt) ;;;
-                          validate_delegated_amount d tok dvi1 a) ;;
+                     else upd <- opt_or_panic P_DIV_ZERO (del_shares_from_tokens dvi1 a tok) ;;
+                          ret (if d_shares d <? upd then d_shares d else upd)) ;;
               (if sh <? 0 then panic P_NEG_COIN else ret tt) ;;;
               let ds := csub (vi_dshares dvi1) (cadd1 [] (a_denom a) sh) in
               (if cany_neg ds then panic P_NEG_COIN else ret tt) ;;;
